@@ -35,10 +35,34 @@ static int inside(uint32_t a, size_t n)
     uint64_t lo = (uint64_t)C.place, hi = (uint64_t)C.place + (C.alg == 3 ? 4 : 2) + (uint64_t)C.n;
     return (uint64_t)a >= lo && (uint64_t)a + n <= hi;
 }
+/* The medium driver may itself use another storage instance (a journal, say): every second access first stores to and validates a
+ * second, tiny instance on a medium of its own.  The storage functions are expected to be re-entrant. */
+static unsigned char jmedium[16];
+static size_t j_read(void *dst, uint32_t a, size_t n) { if ((size_t)a + n > sizeof jmedium) return 0; memcpy(dst, jmedium + a, n); return n; }
+static size_t j_write(uint32_t a, const void *src, size_t n) { if ((size_t)a + n > sizeof jmedium) return 0; memcpy(jmedium + a, src, n); return n; }
+static unsigned jcalls;
+static int jdepth;
+static void journal(void)
+{
+    if (jdepth || (jcalls++ % 2)) return;
+    static PersistentStorage js;
+    static unsigned char jaux[3];
+    unsigned char img[5] = { 1, 2, 3, 4, (unsigned char)jcalls }, back[5];
+    jdepth++;
+    persistent_init(&js, sizeof img, j_read, j_write);
+    persistent_place(&js, 2);
+    persistent_buffer(&js, jaux, sizeof jaux);
+    (void)persistent_store(&js, img);
+    (void)persistent_validate(&js);
+    (void)persistent_fetch(back, &js);
+    (void)persistent_store_part(&js, img, 1, 2);
+    jdepth--;
+}
 static uint32_t MB = 0;   /* medium base (event mbase): the library sees medium offset x at address x + MB */
 static size_t m_read(void *dst, uint32_t a0, size_t n)
 {
     uint32_t a = a0 - MB;
+    journal();
     calls++;
     if (!inside(a, n)) { oob++; }
     if ((uint64_t)a + n > msize) { oob++; return 0; }
@@ -56,6 +80,7 @@ static long long writes;
 static size_t m_write(uint32_t a0, const void *src, size_t n)
 {
     uint32_t a = a0 - MB;
+    journal();
     calls++;
     if (!inside(a, n)) { oob++; }
     if ((uint64_t)a + n > msize) { oob++; return 0; }
